@@ -32,7 +32,8 @@ REFUTE_PATTERNS = [
     'precondition not satisfied', 'assertion failed', 'possible arithmetic underflow/overflow',
     'possible division by zero', 'decreases not satisfied', 'could not prove termination',
     'possible bit shift underflow/overflow', 'unreachable', 'recommendation not met',
-    'failed this postcondition', 'possible truncation', 'index out of bounds',
+    'failed this postcondition', 'possible truncation', 'index out of bounds', 'unable to prove post-condition of closure',
+    'unable to prove', 'failed precondition',
 ]
 UNDECIDED_PATTERNS = ['Resource limit (rlimit) exceeded', 'rlimit', 'verus internal error', 'not supported',
                       'does not yet support', 'timed out', 'unsupported']
